@@ -19,6 +19,7 @@ impl Compiler {
             break_jumps: Vec::new(),
             continue_jumps: Vec::new(),
             is_for_loop: false,
+            scope_depth: self.scopes.len(),
         });
 
         let cond_reg = self.alloc_register()?;
@@ -101,6 +102,7 @@ impl Compiler {
             break_jumps: Vec::new(),
             continue_jumps: Vec::new(),
             is_for_loop: true,
+            scope_depth: self.scopes.len(),
         });
 
         let opcode = if inclusive {
@@ -233,6 +235,7 @@ impl Compiler {
             break_jumps: Vec::new(),
             continue_jumps: Vec::new(),
             is_for_loop: true,
+            scope_depth: self.scopes.len(),
         });
 
         // Register the iterator variable pointing to element register
@@ -309,6 +312,7 @@ impl Compiler {
             break_jumps: Vec::new(),
             continue_jumps: Vec::new(),
             is_for_loop: true,
+            scope_depth: self.scopes.len(),
         });
 
         // Register the iterator variable pointing to char_result register
